@@ -154,7 +154,7 @@ where SC: StorageConfig + 'static, SC::Storage: TraceStorage<Finalized = Vec<nut
                             let p1: Vec<usize> = sampler.progress().map(|p| p.iter().map(|c| c.finished_draws).collect()).unwrap_or_default();
                             std::thread::sleep(Duration::from_millis(25));
                             let p2: Vec<usize> = sampler.progress().map(|p| p.iter().map(|c| c.finished_draws).collect()).unwrap_or_default();
-                            out.pause_obs.push((p0, p1, p2, outstanding)); outstanding = 0; } else { outstanding += 1; } r }
+                            out.pause_obs.push((p0, p1, p2, outstanding)); } outstanding += 1; r }
                     1 => { outstanding += 1; sampler.resume().map_err(|e| format!("{e:#}")) }
                     2 => sampler.progress().map(|_| ()).map_err(|e| format!("{e:#}")),
                     3 => sampler.flush().map_err(|e| format!("{e:#}")),
@@ -255,7 +255,10 @@ pub fn check_case(cfg: &Cfg, mode: u8, case: u64, cases: &mut Cases, rep: &mut R
         return;
     }
     if out.result.starts_with("wait_err") || out.result.starts_with("abort_err") || out.result.starts_with("new_err") {
-        rep.violation("ctl.spurious_error", &format!("a run without unrecoverable failure reported an error: {}", out.result), replay.clone()); return;
+        // a *recoverable* density error that ends a chain has one known cause (C05's finding: the init_state evaluation of the
+        // step-size re-initialisation); it gets its own key so that any other spurious error is still reported
+        let key = if out.result.contains("recoverable: true") { "ctl.recoverable_error_terminated_chain" } else { "ctl.spurious_error" };
+        rep.violation(key, &format!("a run without unrecoverable failure reported an error: {}", out.result), replay.clone()); return;
     }
     for e in &out.api_errors { rep.violation("ctl.api_error", &format!("a control call failed: {e}"), replay.clone()); }
     let Some(traces) = &out.traces else { rep.violation("ctl.no_trace", "no trace returned", replay.clone()); return; };
@@ -282,8 +285,12 @@ pub fn check_case(cfg: &Cfg, mode: u8, case: u64, cases: &mut Cases, rep: &mut R
     // pause bound
     for (p0, p1, p2, outstanding) in &out.pause_obs {
         for c in 0..p0.len().min(p1.len()).min(p2.len()) {
-            if p2[c] != p1[c] { rep.violation("ctl.pause_not_stopped", &format!("chain {c} kept recording while paused: {} -> {} draws", p1[c], p2[c]), replay.clone()); }
-            if p1[c] > p0[c] + 1 + outstanding { rep.violation("ctl.pause_bound", &format!("chain {c} recorded {} draws after pause() returned (bound {})", p1[c] - p0[c], 1 + outstanding), replay.clone()); }
+            // A chain may still hold every command sent so far in its mailbox (a chain that has not been picked up by a worker holds them
+            // all): each queued command lets it record at most one more draw (theorem pause_bound), whenever it gets to run. So the sound,
+            // schedule-independent statement is a bound on the TOTAL recorded after pause() returned, at both later observation points.
+            for (label, p) in [("25 ms", p1), ("50 ms", p2)] {
+                if p[c] > p0[c] + 1 + outstanding { rep.violation("ctl.pause_bound", &format!("chain {c} recorded {} draws within {label} after pause() returned (bound 1 + {} commands sent before)", p[c] - p0[c], outstanding), replay.clone()); }
+            }
         }
         rep.nontrivial += 1;
     }
@@ -294,7 +301,7 @@ pub fn check_case(cfg: &Cfg, mode: u8, case: u64, cases: &mut Cases, rep: &mut R
 pub fn main_mode(prop: &str, mode: u8, tier: &str, seed: u64, outdir: &str) {
     let mut cases = Cases::new();
     let mut rep = Report::new(prop);
-    let n = if tier == "thorough" { 150 } else { 24 };
+    let n = if tier == "thorough" { 1200 } else { 24 };
     for case in 0..n {
         let cfg = gen_cfg(seed, case, tier, mode);
         check_case(&cfg, mode, case, &mut cases, &mut rep, prop);
